@@ -211,6 +211,8 @@ MapLocs == {"m0", "m1"}
 IOc(n) == [f |-> "c", n |-> n]       \* the literal n
 IOe(n) == [f |-> "e", n |-> n]       \* evi(n)
 IOx    == [f |-> "x", n |-> 0]       \* evi(ix)
+IOv    == [f |-> "v", n |-> 0]       \* the variable ix itself: nothing is logged; its value
+                                     \* when the operands of the statement are evaluated counts
 
 PVar(n)     == [sh |-> "var", n |-> n, io |-> IOc(0)]
 PPtr        == [sh |-> "ptr", n |-> "", io |-> IOc(0)]          \* *p, p = &t
@@ -220,8 +222,8 @@ PBlank      == [sh |-> "blank", n |-> "", io |-> IOc(0)]
 PIx         == [sh |-> "ix", n |-> "", io |-> IOc(0)]           \* the int variable ix
 
 Indexed(p) == p.sh \in {"arr", "sl", "map"}
-IOVal(o, ixv) == IF o.f = "x" THEN ixv ELSE o.n
-IOLog(p, ixv) == IF Indexed(p) /\ p.io.f # "c" THEN <<IOVal(p.io, ixv)>> ELSE <<>>
+IOVal(o, ixv) == IF o.f \in {"x", "v"} THEN ixv ELSE o.n
+IOLog(p, ixv) == IF Indexed(p) /\ p.io.f \notin {"c", "v"} THEN <<IOVal(p.io, ixv)>> ELSE <<>>
 LocOf(p, ixv) ==
     CASE p.sh = "var" -> p.n
       [] p.sh = "ptr" -> "t"
@@ -349,7 +351,7 @@ InitS(k) == [st  |-> [l \in Locs |-> IF l \in {"m1", "h"} THEN ZeroOf(k)
 PlaceList == << PVar("v0"), PVar("v1"), PVar("v2"), PVar("v3"), PVar("g"), PVar("gb"), PVar("t"), PPtr,
                 PIdx("arr", IOc(1)), PIdx("arr", IOe(0)), PIdx("arr", IOx),
                 PIdx("sl", IOe(1)), PIdx("sl", IOc(0)), PIdx("sl", IOx),
-                PIdx("map", IOe(0)), PIdx("map", IOe(1)), PIdx("map", IOc(1)), PIdx("map", IOx),
+                PIdx("map", IOe(0)), PIdx("map", IOe(1)), PIdx("map", IOc(1)), PIdx("map", IOx), PIdx("map", IOv),
                 PFld("f"), PFld("h") >>
 ReadList == << PVar("v1"), PVar("g"), PPtr, PIdx("sl", IOe(0)), PIdx("map", IOe(1)), PFld("h"), PVar("v3") >>
 
@@ -368,6 +370,8 @@ CoreStmts(k) ==
     LET v == SeqVals(k) IN
     << SMulti(<<PVar("v0"), PVar("v1")>>, <<RRead(PVar("v1")), RRead(PVar("v0"))>>),
        SMulti(<<PIx, PIdx("sl", IOx)>>, <<RInt(1), RConst(v[1])>>),
+       \* the key operand is the variable assigned by the same statement: its OLD value is the key
+       SMulti(<<PIx, PIdx("map", IOv)>>, <<RInt(1), RConst(v[1])>>),
        SMulti(<<PIdx("map", IOe(0)), PIdx("map", IOe(1))>>, <<RRead(PIdx("map", IOe(1))), RRead(PIdx("map", IOe(0)))>>),
        SAsg(PPtr, RRead(PVar("v2"))),
        SAsg(PIdx("map", IOe(1)), RConst(v[2])) >>
@@ -382,6 +386,8 @@ MultiStmts(k) ==
           sw(PFld("f"), PFld("h")), sw(PVar("gb"), PIdx("map", IOe(1))), sw(PIdx("arr", IOc(0)), PIdx("sl", IOc(1))),
           sw(PVar("t"), PIdx("map", IOc(0))), sw(PFld("h"), PIdx("arr", IOx)),
           SMulti(<<PIdx("sl", IOx), PIx>>, <<RConst(v[2]), RInt(1)>>),
+          SMulti(<<PIdx("map", IOv), PIx>>, <<RConst(v[2]), RInt(1)>>),
+          SMulti(<<PIx, PVar("v0"), PIdx("map", IOv)>>, <<RInt(1), RRead(PIdx("map", IOv)), RRead(PVar("v0"))>>),
           SMulti(<<PIx, PIdx("arr", IOx), PIdx("map", IOx)>>, <<RInt(1), RConst(v[1]), RRead(PIdx("sl", IOx))>>),
           SMulti(<<PVar("v0"), PVar("v1"), PVar("v2")>>, <<RRead(PVar("v1")), RRead(PVar("v2")), RRead(PVar("v0"))>>),
           SMulti(<<PBlank, PVar("v0")>>, <<RRead(PIdx("sl", IOe(1))), RRead(PVar("v2"))>>),
